@@ -342,10 +342,12 @@ func (ms *Modules) Process() []error {
 		return errorSort(errs)
 	}
 
-	for _, m := range ms.Modules {
+	// Build the trees in key order: where a cycle of groupings is entered
+	// decides which uses statement is reported.
+	for _, m := range inKeyOrder(ms.Modules) {
 		errs = append(errs, ToEntry(m).GetErrors()...)
 	}
-	for _, m := range ms.SubModules {
+	for _, m := range inKeyOrder(ms.SubModules) {
 		errs = append(errs, ToEntry(m).GetErrors()...)
 	}
 
